@@ -402,6 +402,8 @@ Definition lcase_agrees (c : lcase) : bool :=
 Inductive wop := OpWrite | OpWriteReader | OpAppendReader.
 
 Record wcase := { w_op : wop; w_old_final : option bytes; w_old_part : option bytes;
+                  w_dir_removed : bool;     (* the directory was cached by an earlier write and then removed
+                                               (with the old files) behind the backend's back *)
                   w_chunks : list bytes; w_clean : bool; w_size : Z;      (* size / appendSize argument *)
                   w_k : nat;
                   w_obs_final : option bytes; w_obs_part : option bytes; w_obs_tmp : option bytes }.
@@ -410,9 +412,12 @@ Definition p_dir : bytes := [slash; 100].                        (* "/d"       *
 Definition p_final : bytes := [slash; 100; slash; 102].          (* "/d/f"     *)
 Definition p_tmp : bytes := [slash; 100; slash; 116].            (* "/d/t"  (stands for .arc-*.tmp) *)
 
+Definition eff_old_final (c : wcase) : option bytes := if w_dir_removed c then None else w_old_final c.
+Definition eff_old_part (c : wcase) : option bytes := if w_dir_removed c then None else w_old_part c.
+
 Definition init_fs (c : wcase) : fs :=
-  (match w_old_final c with Some b => [(p_final, b)] | None => [] end)
-  ++ (match w_old_part c with Some b => [(part_path p_final, b)] | None => [] end).
+  (match eff_old_final c with Some b => [(p_final, b)] | None => [] end)
+  ++ (match eff_old_part c with Some b => [(part_path p_final, b)] | None => [] end).
 
 Definition wcase_steps (c : wcase) : list step :=
   let rd := {| r_chunks := w_chunks c; r_clean := w_clean c |} in
@@ -433,7 +438,7 @@ Definition wcase_agrees (c : wcase) : bool :=
    handed to Write / delivered by the reader (after the old .part prefix for AppendReader). *)
 Definition intended (c : wcase) : bytes :=
   match w_op c with
-  | OpAppendReader => (match w_old_part c with Some b => b | None => [] end) ++ concat (w_chunks c)
+  | OpAppendReader => (match eff_old_part c with Some b => b | None => [] end) ++ concat (w_chunks c)
   | _ => concat (w_chunks c)
   end.
 
@@ -448,7 +453,7 @@ Definition may_promote (c : wcase) : bool :=
   end.
 
 Definition wcase_oracle (c : wcase) : bool :=
-  opt_bytes_eqb (w_obs_final c) (w_old_final c)
+  opt_bytes_eqb (w_obs_final c) (eff_old_final c)
   || (may_promote c && opt_bytes_eqb (w_obs_final c) (Some (intended c))).
 
 (* (4) method cases: EVERY key-taking method of LocalBackend first applies validatePath and then
